@@ -116,7 +116,7 @@ def gen_case(rng, stream="main"):
             v["type"] = "Real"
     elif nparams:
         # at most one parameter-dependent start per class (two of them make the conflict check raise)
-        for members in classes:
+        for members in (classes if not stream.startswith("twopass") else classes[:1]):
             if rng.random() < 0.25:
                 pick = rng.choice(members)
                 v = next(x for x in vars_ if x["name"] == pick)
@@ -210,7 +210,7 @@ def attr_at(a, pvec, default):
     return a09.jx(a["k"]) * pvec[a["par"]] + a09.jx(a["c"])
 
 
-def build_text(case):
+def build_text(case, with_late=True):
     lines = ["model M"]
     for p in case["params"]:
         lines.append("  parameter Real %s = %s;" % (p["name"], a09.mo_num(a09.jx(p["value"]))))
@@ -237,7 +237,7 @@ def build_text(case):
     if case.get("kc"):
         kc = case["kc"]
         lines.append("  %s - %s + %s = 0;" % (kc["a"], kc["b"], kc["c"]))
-        for l in late_text_eqs(case):
+        for l in (late_text_eqs(case) if with_late else []):
             lines.append("  %s %s %s + %s = 0;" % (l["a"], "+" if l["neg"] else "-", l["b"], kc["c"]))
     # classes of algebraic variables only get a defining equation (keeps the system square)
     kinds = {v["name"]: v["kind"] for v in case["vars"]}
@@ -250,9 +250,41 @@ def build_text(case):
 
 
 def late_text_eqs(case):
-    """the late alias equations of the `kc` route, between the first members of consecutive classes"""
-    return [{"a": case["classes"][l["ca"]][0], "b": case["classes"][l["cb"]][0], "neg": l["neg"], "form": 0}
-            for l in case["late"]]
+    """the late alias equations of the `kc` route, between the first members of consecutive classes, with the
+    member-level signs `prepare` computed"""
+    if "late_text" not in case:
+        raise HarnessError("kc-route case was not prepared")
+    return case["late_text"]
+
+
+def prepare(case):
+    """`late[i].neg` is the sign wanted between the variables that survive the first pass.  The `kc` route writes
+    the late equations between the first members of the classes, so their member-level signs depend on which
+    member the real code keeps: found by a dry run of the first pass (without the late equations)."""
+    if not case.get("kc") or "late_text" in case:
+        return case
+    from pymoca import parser
+    from pymoca.backends.casadi import generator as gen
+    try:
+        model = gen.generate(parser.parse(build_text(case, with_late=False), bypass_cache=True), "M", {})
+        model.simplify({"detect_aliases": True, "eliminate_constant_assignments": True, "replace_constant_values": True})
+        alive = {v.symbol.name() for lst in ("states", "alg_states", "inputs") for v in getattr(model, lst)}
+    except Exception as e:
+        if not impl_frames(e.__traceback__):
+            raise
+        alive = set()
+    par = parity_map(case["eqs"], [v["name"] for v in case["vars"]])
+    out = []
+    for l in case["late"]:
+        a, b = case["classes"][l["ca"]][0], case["classes"][l["cb"]][0]
+        rel = l["neg"]
+        for x in (a, b):
+            s = [m for m in par if par[m][0] == par[x][0] and m in alive]
+            if len(s) == 1:
+                rel = rel != (par[x][1] != par[s[0]][1])
+        out.append({"a": a, "b": b, "neg": rel, "form": 0})
+    case["late_text"] = out
+    return case
 
 
 # ---- real code ------------------------------------------------------------------------------
@@ -424,6 +456,33 @@ def jattrs(d, ptype):
             "start": None if d["start"] is None else xj(d["start"]), "ptype": ptype}
 
 
+_SIGNED_LOOKUP = None
+
+
+def signed_lookup():
+    """How does the current code perform `alias in old_alias_relation.canonical_variables`?  Read off its
+    behaviour on the smallest two-pass model (the canonical of an earlier class becomes a negative alias of a
+    state): True = the signed string is looked up (never found; finding C16-F2), False = the sign is ignored."""
+    global _SIGNED_LOOKUP
+    if _SIGNED_LOOKUP is None:
+        from pymoca import parser
+        from pymoca.backends.casadi import generator as gen
+        txt = ("model M\n Real x; Real a(max = 1); Real b;\nequation\n der(x) = 1; a = b;\nend M;\n")
+        try:
+            m = gen.generate(parser.parse(txt, bypass_cache=True), "M", {})
+            m.simplify({"detect_aliases": True})
+            syms = {v.symbol.name(): v.symbol for v in m.states + m.alg_states}
+            keep = [n for n in ("a", "b") if n in syms][0]
+            m.equations.append(syms["x"] + syms[keep])
+            m.simplify({"detect_aliases": True})
+            _SIGNED_LOOKUP = keep in [v.symbol.name() for v in m.alg_states]
+        except Exception as e:
+            if not impl_frames(e.__traceback__):
+                raise
+            _SIGNED_LOOKUP = True
+    return _SIGNED_LOOKUP
+
+
 def model_pass(drv, state, obs, old):
     """One `detect_aliases` pass of the model on the attribute table `state` (name -> attrs) for the classes and
     iteration orders observed in `obs`; `old` is the observation of the previous pass (None in the first):
@@ -443,7 +502,9 @@ def model_pass(drv, state, obs, old):
         al = []
         for a in o["aliases"]:
             nm = a.lstrip("-")
-            al.append({"neg": a.startswith("-"), "oldMulti": nm in old_multi, "oldCanon": nm in old_canon,
+            negd = a.startswith("-")
+            al.append({"neg": negd, "oldMulti": nm in old_multi,
+                       "inCanon": nm in old_canon and not (negd and signed_lookup()),
                        "attrs": new.get(nm, gone)})
         ans = drv.ask({"op": "merge", "canon": new[s], "aliases": al})
         if not ans.get("ok"):
@@ -523,6 +584,7 @@ def run(ctx):
     logging.getLogger("pymoca").setLevel(logging.ERROR)
     drv = ctx.driver("drv_c16")
     quick = ctx.tier == "quick"
+    ctx.extra["lookup_of_former_canonicals"] = "signed name (C16-F2 present)" if signed_lookup() else "unsigned name"
     for c in corpus.load("C16"):
         ctx.count("corpus")
         c.pop("_file", None)
@@ -534,7 +596,7 @@ def run(ctx):
             if ctx.time_left() < 0:
                 ctx.notes.append("stream %s stopped by the time budget after %d cases" % (stream, i))
                 break
-            case = gen_case(ctx.rng, stream)
+            case = prepare(gen_case(ctx.rng, stream))
             ctx.case(case, nontrivial=nontrivial(case), key=[build_text(case), case["pvecs"], case["late"]])
             stats(ctx, case)
             check_case(ctx, case, drv)
@@ -545,7 +607,7 @@ def search(ctx):
     import logging
     logging.getLogger("pymoca").setLevel(logging.ERROR)
     while ctx.time_left() > 0 and not ctx.violations:
-        case = gen_case(ctx.rng, ctx.rng.choice(["main", "main", "twopass"]))
+        case = prepare(gen_case(ctx.rng, ctx.rng.choice(["main", "main", "twopass"])))
         ctx.case(case, nontrivial=nontrivial(case), key=[build_text(case), case["pvecs"], case["late"]])
         ctx.count("search")
         res = run_impl(case)
@@ -577,4 +639,4 @@ MANIFEST = dict(
                "representable points; AliasRelation's classes and signs (C17). The theorems are about the model.",
     technique="Lean 4 proof (fold invariants, permutation invariance, order-theoretic characterisation) + model/implementation correspondence",
 )
-READY = False
+READY = True
